@@ -5,8 +5,8 @@ Tie: (C) random stores and request sequences through the REAL functions (core/ap
 delete_port_history -> core/history.py -> persist -> in-memory JSON driver with samples enabled; value changes through
 HistoryEventHandler; the clock is a fake `time` object installed in the three modules that read it), compared step by
 step with the Coq model (Model.step: response, driver records, contents of _samples_cache) and with the Coq
-specification (Spec.spec_step) by vm_compute.  Thorough tier: the same sequences on fakeredis / mongomock against the
-tie-tolerant specification oracle.
+specification (Spec.spec_step) by vm_compute.  The same kind of sequences also run on fakeredis / mongomock (40 each in the
+quick tier, 2000 each in the thorough tier) against the tie-tolerant specification oracle.
 """
 import asyncio
 import glob
@@ -20,7 +20,7 @@ from harness.common import coq
 
 ID = 'C18'
 PROPS = 'theories/Props/C18.v'
-MODEL_TARGETS = ['theories/C18/Run.vo']
+MODEL_TARGETS = ['theories/C18/Lit.vo']
 TRANSLATORS = []
 TIE = 'correspondence by vm_compute on generated request sequences (responses, driver records and cache contents per step)'
 ALLOWED_AXIOMS = []
@@ -29,7 +29,7 @@ TRUSTED_BASE = [
     'core/api/funcs/ports.py and system/date.py; ports are harness subclasses of core.ports.Port; requests are tornado '
     'APIHandler objects over a mock request as in the repo tests',
     'in-memory subclass of drivers/persist/json.py:JSONDriver with is_samples_supported() = True (the repo test mock); '
-    'thorough tier: fakeredis and mongomock as stand-ins for the servers (tie-tolerant oracle only)',
+    'fakeredis and mongomock as stand-ins for the servers (tie-tolerant oracle only; 40 sequences each in quick, 2000 in thorough)',
     'modelled, not verified: Python dict ordering, list.sort stability, int() on decimal strings, float()/int()/bool() '
     'conversions on dyadic values',
 ]
@@ -304,7 +304,7 @@ async def run_impl(impl, cases, driver_kind='json'):
             prev = await dump_store(driver)
             obs = []
             for req in case['requests']:
-                out, exc, note = None, None, None
+                out, note = None, None
                 try:
                     if req['op'] == 'get':
                         out = await impl.api_ports.get_port_history(impl.request('GET', OID_NAMES[req['port']], req['query']),
@@ -354,31 +354,22 @@ async def run_impl(impl, cases, driver_kind='json'):
 
 
 # ----------------------------------------------------------------------------------------------------------------
-# Coq literals
+# Coq literals (constructors of C18/Lit.v; every number is a primitive-int literal)
+
+def c_int(n):
+    n = int(n)
+    return '(0 - %d)' % -n if n < 0 else '%d' % n
+
 
 def c_value(v):
     tag, x = v
     if tag == 'b':
-        return '(VBool %s)' % coq.boolean(x)
-    if tag == 'i':
-        return '(VInt %s)' % coq.z(x)
-    return '(VNum %s)' % coq.z(x)
-
-
-T_BASE, T_UNIT = NOW0, 3_600_000
-
-
-def c_ts(t):
-    """a millisecond time as a Coq term.  13-digit literals cost ~0.7 ms each to elaborate, so times near the harness epoch are
-    written T k r = T_BASE + k * T_UNIT + r with small k, r (T is defined in the shard header)"""
-    if abs(t) < 10_000_000:
-        return coq.z(t)
-    k = round((t - T_BASE) / T_UNIT)
-    return '(T %s %s)' % (coq.z(k), coq.z(t - T_BASE - k * T_UNIT))
+        return '(VB %s)' % coq.boolean(x)
+    return '(%s %s)' % ('VI' if tag == 'i' else 'VN', c_int(x))
 
 
 def c_sample(s):
-    return '(%s, %s, %s)' % (coq.z(s[0]), c_ts(s[1]), coq.z(s[2]))
+    return 'S %s %s %s' % (c_int(s[0]), c_int(s[1]), c_int(s[2]))
 
 
 def c_qarg(s):
@@ -388,64 +379,63 @@ def c_qarg(s):
         return 'QEmpty'
     t = s[1:] if s.startswith('-') else s
     if t.isascii() and t.isdigit():
-        return '(QInt %s)' % c_ts(int(s))
+        return '(QI %s)' % c_int(int(s))
     return 'QBad'
 
 
 def c_query(q):
     ts = q.get('timestamps')
     tsl = 'None' if ts is None else '(Some %s)' % coq.lst(ts.split(','), c_qarg)
-    return '(Build_query %s %s %s %s)' % (c_qarg(q.get('from')), c_qarg(q.get('to')), c_qarg(q.get('limit')), tsl)
+    return '(Q %s %s %s %s)' % (c_qarg(q.get('from')), c_qarg(q.get('to')), c_qarg(q.get('limit')), tsl)
 
 
 def c_request(r):
     if r['op'] == 'get':
-        return '(ApiGet %s %s)' % (coq.z(r['port']), c_query(r['query']))
+        return 'G %s %s' % (c_int(r['port']), c_query(r['query']))
     if r['op'] == 'delete':
-        return '(ApiDelete %s %s)' % (coq.z(r['port']), c_query(r['query']))
+        return 'D %s %s' % (c_int(r['port']), c_query(r['query']))
     if r['op'] == 'change':
-        return '(ValueChange %s %s)' % (coq.z(r['port']), coq.option(r['value'], coq.z))
-    return '(AdvanceClock %d%%N)' % r['ms']
+        return 'C %s %s' % (c_int(r['port']), coq.option(r['value'], c_int))
+    return 'K %d' % r['ms']
 
 
 def c_response(r):
     tag = r[0]
     if tag == 'samples':
-        return '(RSamples %s)' % coq.lst(r[1], lambda e: '(%s, %s)' % (c_ts(e[0]), c_value(e[1])))
+        return '(RS %s)' % coq.lst(r[1], lambda e: 'TV %s %s' % (c_int(e[0]), c_value(e[1])))
     if tag == 'entries':
-        return '(REntries %s)' % coq.lst(
-            r[1], lambda e: 'None' if e is None else '(Some (%s, %s))' % (c_ts(e[0]), c_value(e[1])))
+        return '(RE %s)' % coq.lst(r[1], lambda e: 'None' if e is None else 'Some (TV %s %s)' % (c_int(e[0]), c_value(e[1])))
     if tag == 'missing':
-        return '(RMissing %d)' % r[1]
+        return '(RM %d)' % r[1]
     if tag == 'invalid':
-        return '(RInvalid %d)' % r[1]
+        return '(RI %d)' % r[1]
     return {'done': 'RDone', 'nosuchport': 'RNoSuchPort', 'none': 'RNone'}.get(tag, 'ROther')
 
 
 def c_obs(o):
     store = 'None' if o['store'] is None else '(Some %s)' % coq.lst(o['store'], c_sample)
-    cache = coq.lst(o['cache'], lambda e: '(%s, %s, %s)' % (coq.z(e[0]), c_ts(e[1]), coq.option(e[2], c_value)))
-    return '(%s, %s, %s)' % (c_response(o['resp']), store, cache)
+    cache = coq.lst(o['cache'], lambda e: 'CE %s %s %s' % (c_int(e[0]), c_int(e[1]), coq.option(e[2], c_value)))
+    return 'O %s %s %s' % (c_response(o['resp']), store, cache)
 
 
 def c_case(case, obs, impl):
     cfg = '(CFG %s)' % ' '.join(coq.boolean(bool(case['on_change'].get(str(p)))) for p in PORTS)
     steps = coq.lst(list(zip(case['requests'], obs)), lambda ro: '(%s, %s)' % (c_request(ro[0]), c_obs(ro[1])))
-    return '(%s, %s, %s,\n   %s)' % (cfg, coq.lst(case['store'], c_sample), c_ts(case['now0']), steps)
+    return 'CASE %s %s %s\n   %s' % (cfg, coq.lst(case['store'], c_sample), c_int(case['now0']), steps)
 
 
 def header(impl):
-    """shard preamble: the configuration (constants read from the imported modules) and the time abbreviation"""
+    """shard preamble: the configuration (constants read from the imported modules)"""
     ports = '; '.join('(%d, (%s, b%d))' % (p, PORTS[p][1], p) for p in PORTS)
     return (
-        'From QT Require Import C18.Run.\nOpen Scope Z_scope.\n'
-        'Definition T (k r : Z) : Z := %d + k * %d + r.\n' % (T_BASE, T_UNIT)
-        + 'Definition CFG (%s : bool) : config :=\n  {| cfg_ports := [%s]; cfg_min_age := %s; cfg_real_ms := %s |}.\n' % (
+        'From Coq Require Import Uint63.\nFrom QT Require Import C18.Lit.\n'
+        'Definition CFG (%s : bool) : config :=\n  {| cfg_ports := [%s]%%Z; cfg_min_age := %s%%Z; cfg_real_ms := %s%%Z |}.\n' % (
             ' '.join('b%d' % p for p in PORTS), ports, coq.z(impl.min_age), coq.z(impl.real_ms))
+        + 'Open Scope uint63_scope.\n'
     )
 
 
-def evaluate(ctx, impl, cases, name, driver_kind='json', strict=True, shard=150):
+def evaluate(ctx, impl, cases, name, driver_kind='json', strict=True, shard=200):
     """run the implementation and the Coq model/spec on the cases.
     -> (observations, {case index: step} model disagreements, {case index: step} spec contradictions, error text or None)"""
     t0 = _time.time()
@@ -509,11 +499,11 @@ def gen_case(rng, min_age):
 
     def num_arg(valid, allow_empty=False):
         r = rng.random()
-        if r < 0.82:
+        if r < 0.93:
             return str(valid())
-        if r < 0.88:
+        if r < 0.955:
             return str(-rng.randint(1, 5000))
-        if r < 0.94 or not allow_empty:
+        if r < 0.98 or not allow_empty:
             return rng.choice(BAD_STRINGS)
         return ''
 
@@ -521,7 +511,7 @@ def gen_case(rng, min_age):
         r = rng.random()
         if r < 0.7:
             return focus
-        if r < 0.94:
+        if r < 0.97:
             return rng.choice([1, 2, 3, 4])
         return rng.choice([ORPHAN, NO_PORT])
 
@@ -540,7 +530,7 @@ def gen_case(rng, min_age):
             ts = [str(rng.choice(tspool if rng.random() < 0.8 else pool)) for _ in range(k)]
             if rng.random() < 0.35 and k > 1:
                 ts[rng.randrange(k)] = rng.choice(ts)          # force a duplicate
-            if rng.random() < 0.08:
+            if rng.random() < 0.05:
                 ts[rng.randrange(k)] = rng.choice(BAD_STRINGS + ['', '-1', '-250'])
             q = {'timestamps': ','.join(ts)}
             if rng.random() < 0.12:
@@ -561,7 +551,7 @@ def gen_case(rng, min_age):
             if rng.random() < 0.8:
                 q['to'] = num_arg(lambda: b, True)
             if rng.random() < 0.6:
-                q['limit'] = rng.choice(['1', '1', '2', '3', '5', '40', '0', '10000', '10001', 'abc', '', '-1'])
+                q['limit'] = rng.choice(['1', '1', '2', '2', '3', '3', '5', '8', '40', '10000', '1000', '0', '10001', 'abc', '', '-1'])
             requests.append({'op': 'get', 'port': pick_port(), 'query': q})
         elif r < 0.74:
             a, b = bounds()
@@ -744,10 +734,9 @@ def run_batch(ctx, res, impl, cases, name, labels=None, do_shrink=True):
                     cached_hit = True
         if cached_hit:
             dist['sequences with a cache hit'] = dist.get('sequences with a cache hit', 0) + 1
-        dist['store size %s' % ('0' if not case['store'] else '1-10' if len(case['store']) <= 10 else '11-40'
-                                if len(case['store']) <= 40 else '>40')] = dist.get('store size %s' % (
-                                    '0' if not case['store'] else '1-10' if len(case['store']) <= 10 else '11-40'
-                                    if len(case['store']) <= 40 else '>40'), 0) + 1
+        n_st = len(case['store'])
+        size_key = 'store size ' + ('0' if n_st == 0 else '1-10' if n_st <= 10 else '11-40' if n_st <= 40 else '>40')
+        dist[size_key] = dist.get(size_key, 0) + 1
         if len(case['store']) >= 2 and len(kinds) >= 2:
             nontrivial += 1
     res['evaluations'] += sum(len(c['requests']) for c in cases)
@@ -824,8 +813,8 @@ def check(ctx, res):
             cases = [gen_case(ctx.rng, impl.min_age) for _ in range(k)]
             run_batch(ctx, res, impl, cases, 'c18cases%d' % done)
             done += k
-        if ctx.tier == 'thorough':
-            other_drivers(ctx, res, impl, 2000)
+        if not res['violations']:
+            other_drivers(ctx, res, impl, ctx.n(40, 2000))
     finally:
         impl.restore()
         Impl.ready = None
@@ -836,9 +825,7 @@ def other_drivers(ctx, res, impl, n):
     for kind in ('redis', 'mongo'):
         try:
             cases = [gen_case(ctx.rng, impl.min_age) for _ in range(n)]
-            observations = None
-            obs, _bm, bad, err = evaluate(ctx, impl, cases, 'c18%s' % kind, driver_kind=kind, strict=False)
-            observations = obs
+            observations, _bm, bad, err = evaluate(ctx, impl, cases, 'c18%s' % kind, driver_kind=kind, strict=False)
         except Exception as e:  # noqa: BLE001
             res['extra']['driver:%s' % kind] = 'not run: %s: %s' % (type(e).__name__, e)
             continue
